@@ -85,7 +85,8 @@ MANIFEST = {
              "left (by return; by rejection for user operations). As this holds at every method boundary it covers every "
              "interleaving of view reads with supply/withdraw/borrow/repay/collateral change/liquidation/new bar. With "
              "valid caches each view is its from-scratch formula by construction. Plus a who-writes check that no other "
-             "module writes the positions or caches.",
+             "module writes the positions or caches. The helpers the views are built from (safe_div_zero, safe_rounding, "
+             "rate_to_apy with the 365-day year constant) each equal their own reference.",
     "note": "Trusted: dependency derivation through the interpreter's read events; the collateral-conditional idiom (a "
             "non-collateral supply is not part of the collateral view); saved-copy restore recognition. Stale-at-raise is "
             "not checked inside bar-end liquidation (an uncaught exception there aborts the run).",
